@@ -137,6 +137,10 @@ type querier struct {
 	mem      int
 	memLie   string
 	infoAns  gmsl.RestrictedRoomJoinInfo
+	// per allow-listed room answers (first room: infoAns) and every joined
+	// local user's membership event, whatever its power
+	infoByRoom map[string]*gmsl.RestrictedRoomJoinInfo
+	allLocal   []gmsl.PDU
 	fakeJR   gmsl.PDU
 	invLie   bool
 	infoArgs []string
@@ -193,20 +197,55 @@ func (q *querier) InvitePending(ctx context.Context, roomID spec.RoomID, senderI
 	return b, err
 }
 
-func (q *querier) roomInfo() (*gmsl.RestrictedRoomJoinInfo, error) {
+// roomInfo answers about one allow-listed room. The first room asked about
+// gets the answer drawn in newQuerier; every further room gets its own
+// tape-drawn answer (resident or not, user joined or not, which local users
+// are joined), remembered so that the library and the oracle see the same.
+func (q *querier) roomInfo(roomID string) (*gmsl.RestrictedRoomJoinInfo, error) {
 	switch q.info {
 	case qError:
 		return nil, errors.New("querier: database error")
 	case qNil:
 		return nil, nil
 	}
-	i := q.infoAns
+	if q.infoByRoom == nil {
+		q.infoByRoom = map[string]*gmsl.RestrictedRoomJoinInfo{}
+	}
+	if a, ok := q.infoByRoom[roomID]; ok {
+		if a == nil {
+			return nil, nil
+		}
+		i := *a
+		return &i, nil
+	}
+	if len(q.infoByRoom) == 0 {
+		a := q.infoAns
+		q.infoByRoom[roomID] = &a
+		return &a, nil
+	}
+	t := q.c.t
+	q.c.r.Probe("restricted_join_several_allowed_rooms")
+	if t.Chance(100) {
+		q.infoByRoom[roomID] = nil
+		return nil, nil
+	}
+	a := &gmsl.RestrictedRoomJoinInfo{LocalServerInRoom: t.Bool(), UserJoinedToRoom: t.Bool()}
+	for _, m := range q.infoAns.JoinedUsers {
+		if t.Bool() {
+			a.JoinedUsers = append(a.JoinedUsers, m)
+		}
+	}
+	if len(a.JoinedUsers) == 0 && len(q.allLocal) > 0 && t.Bool() {
+		a.JoinedUsers = append(a.JoinedUsers, sim.Pick(t, q.allLocal))
+	}
+	q.infoByRoom[roomID] = a
+	i := *a
 	return &i, nil
 }
 
 func (q *querier) RestrictedRoomJoinInfo(ctx context.Context, roomID spec.RoomID, senderID spec.SenderID, local spec.ServerName) (*gmsl.RestrictedRoomJoinInfo, error) {
 	q.infoArgs = append(q.infoArgs, roomID.String())
-	i, err := q.roomInfo()
+	i, err := q.roomInfo(roomID.String())
 	q.c.r.Logf("  querier RestrictedRoomJoinInfo(%s) -> nil=%v err=%v", roomID.String(), i == nil, err != nil)
 	return i, err
 }
@@ -238,6 +277,7 @@ func (c *c15) newQuerier() *querier {
 		if u.srv != rm.R() {
 			continue
 		}
+		q.allLocal = append(q.allLocal, rm.nodes[rm.tip.after[skey{spec.MRoomMember, u.id}]].ev)
 		if mode == 1 {
 			break // nobody
 		}
@@ -306,7 +346,7 @@ func (c *c15) restrictedGuard(q *querier, sender string) (bool, string) {
 		if _, err := spec.NewRoomID(a.RoomID); err != nil {
 			continue
 		}
-		info, err := q.roomInfo()
+		info, err := q.roomInfo(a.RoomID)
 		if err != nil || info == nil || !info.LocalServerInRoom || !info.UserJoinedToRoom {
 			continue
 		}
